@@ -54,10 +54,17 @@ class Elem:
             self.dev = TwoRateTokenBucket(env, rate, spec.get("bucket", 1500), pir=rate * 4, pbs=3000)
         elif t == "SP":
             self.dev = SP(env, rate, w)
+        elif t in ("WFQ", "VC", "DRR") and spec.get("strcls"):
+            # class ids are opaque keys: service classes named by strings, several flows per class
+            names = ["gold", "silver", "bronze", "best-effort", "scavenger"]
+            f2c = (lambda f: names[f % 3]) if spec["strcls"] == 1 else (lambda f: names[f % len(names)])
+            tbl = {n: (1 + i % 3 if t != "VC" else 0.25 * (1 + i % 2)) for i, n in enumerate(names)}
+            self.dev = {"WFQ": WFQ, "VC": VC, "DRR": DRR}[t](env, rate, tbl, flow2class=f2c)
         elif t == "WFQ":
             self.dev = WFQ(env, rate, w)
         elif t == "VC":
-            self.dev = VC(env, rate, {f: 0.25 * (1 + f % 2) for f in flows})
+            # a vtick of 0 is legal: all packets of such a flow carry equal stamps
+            self.dev = VC(env, rate, {f: (0 if spec.get("vt0") and f % 2 == 0 else 0.25 * (1 + f % 2)) for f in flows})
         elif t == "DRR":
             self.dev = DRR(env, rate, w)
         elif t == "RR":
@@ -85,8 +92,12 @@ class Elem:
                 self.counted = lambda: sum(p.packets_dropped for p in self.dev.ports)
             else:
                 fib = {f: f % n for f in flows}
-                self.dev = FairPacketSwitch(env, n, rate, spec.get("qlimit", 4), {c: 1 + c for c in range(2)}, spec.get("server", "WFQ"),
-                                            element_id=name, flow2class=lambda f: f % 2)
+                if spec.get("strcls"):
+                    wts, f2c = {"gold": 1, "silver": 2, "bronze": 3}, (lambda f: ("gold", "silver", "bronze")[f % 3])
+                else:
+                    wts, f2c = {c: 1 + c for c in range(2)}, (lambda f: f % 2)
+                self.dev = FairPacketSwitch(env, n, rate, spec.get("qlimit", 4), wts, spec.get("server", "WFQ"),
+                                            element_id=name, flow2class=f2c)
                 self.dev.demux.fib = fib
                 for i, p in enumerate(self.dev.ports):
                     p.out = self.branch_taps[i]
@@ -340,8 +351,8 @@ def run_pipeline(case, driver=None, trace=None):
             trace.extend(lab.global_trace())
             for kind, name, m in monitors:
                 if kind == "sched":
-                    trace.append(["monitor", name, sorted((k, list(v)) for k, v in m.sizes.items()),
-                                  sorted((k, list(v)) for k, v in m.byte_sizes.items())])
+                    trace.append(["monitor", name, sorted(((k, list(v)) for k, v in m.sizes.items()), key=lambda kv: repr(kv[0])),
+                                  sorted(((k, list(v)) for k, v in m.byte_sizes.items()), key=lambda kv: repr(kv[0]))])
                 else:
                     trace.append(["monitor", name, list(m.sizes), list(m.sizes_byte)])
         depth = len(case["chain"]) + (1 + max([len(b) for b in case["fanout"]] or [0]) if case["fanout"] else 0)
@@ -459,6 +470,10 @@ def elem_spec(types=ELEMENT_TYPES):
             base.update(delay=st.sampled_from([0, 0.125, 1, 0.01]))
         if t == "tb":
             base.update(bucket=st.sampled_from([500, 1500, 4000]), peak=st.sampled_from([None, 8192 * 16]))
+        if t in ("WFQ", "VC", "DRR", "fairswitch"):
+            base.update(strcls=st.sampled_from([0, 0, 1, 2]))
+        if t == "VC":
+            base.update(vt0=st.booleans())
         if t in ("flowdemux", "fibdemux", "simpleswitch", "fairswitch"):
             base.update(nouts=st.integers(1, 4), default=st.booleans(), qlimit=st.sampled_from([2, 4, 50]),
                         server=st.sampled_from(["WFQ", "DRR", "VirtualClock"]))
